@@ -6,7 +6,7 @@ from fractions import Fraction
 
 sys.path.insert(0, os.path.dirname(os.path.dirname(os.path.abspath(__file__))))
 from verif_static.core import run_check, AnalysisError  # noqa
-from verif_static.norm import same, same_stmt  # noqa
+from verif_static.norm import same, same_stmt, local_defs, inline  # noqa
 from verif_static import model as M, cfg as C, norm as N  # noqa
 from verif_static.poly import Poly  # noqa
 
@@ -427,6 +427,35 @@ def on_every_path(fn, call_texts):
     return True
 
 
+def rule_grid_dimensions(chk, tree):
+    """the dimension the interpolation works in (kernel normalisation, neighbour search, size of the order1 system) is read off the automatic grid: the number of directions
+    that get more than one point.  A direction counts from a relative extent of 1e-4 on (thin slabs resolved by particles are still interpolated across); the test that gives a
+    direction its points must not be coarser than that"""
+    fn = M.find_func(tree, 'get_nx_ny_nz')
+    M.set_parents(fn)
+    defs = local_defs(fn.body)
+    found = []
+    for a in ast.walk(fn):
+        if not (isinstance(a, ast.Assign) and isinstance(a.targets[0], ast.Subscript) and compact(a.targets[0].value) == 'dimensions'):
+            continue
+        idx = a.targets[0].slice
+        test = None
+        gi = M.enclosing(a, (ast.If,))
+        if gi is not None and any(gi is x for x in ast.walk(fn)):
+            test = inline(gi.test, defs)
+        elif isinstance(idx, ast.Name) and idx.id in defs:
+            test = inline(idx, defs)
+        if isinstance(test, ast.Compare) and len(test.ops) == 1 and isinstance(test.ops[0], (ast.Gt, ast.GtE)) and isinstance(test.comparators[0], ast.Constant):
+            found.append(float(test.comparators[0].value))
+        else:
+            found.append(None)
+    ok = bool(found) and all(c is not None and c <= 1e-4 for c in found)
+    chk.decide(ok, 'rebinding', 'grid:direction-resolved-from-1e-4', node=fn, file=INT, func='get_nx_ny_nz',
+               detail_bad='a direction gets more than one grid point only above a relative extent of %s (1e-4 documented): a thin but resolved direction (relative extent between 1e-4 and '
+                          'that) collapses to one point, the interpolator then works one dimension lower - wrong kernel normalisation, zero gradient across the slab' % found,
+               detail_ok='directions with relative extent above 1e-4 are gridded')
+
+
 def rule_rebinding(chk, tree):
     icls = interp_class(tree)
     upa = M.find_func(icls, 'update_particle_arrays')
@@ -505,6 +534,9 @@ def rule_rebinding(chk, tree):
             ci = [i for i, c_, cal, env in PT.calls_on(p_) if cal == 'self.func_eval.compute']
             if ci and (not li or min(ci) < max(li)):
                 ok = False
+            # ... on every path that hands a result back: a remembered "already solved for this property" is stale as soon as the source values change in place
+            if p_[-1].kind == 'return' and (not li or not ci):
+                ok = False
     chk.decide(ok, 'rebinding', 'interpolate:stage-property-of-every-array', node=ip, file=INT, func='interpolate',
                detail_bad='the property is not copied into temp_prop of every source array (all particles; 0 where the array lacks it) before the evaluation',
                detail_ok='temp_prop[:] = prop (or 0) for every array, then compute')
@@ -513,11 +545,33 @@ def rule_rebinding(chk, tree):
     chk.decide('self.pa.prop.copy()' in res and 'self.pa.prop[comp::4].copy()' in res, 'rebinding', 'interpolate:result-stride', node=ip, file=INT, func='interpolate',
                detail_bad='result read as %s (scalar methods: prop; order1: prop[comp::4])' % sorted(res), detail_ok='prop / prop[comp::4]')
     sp = M.find_func(icls, '_set_particle_arrays')
-    spar_ = [a_ for a_ in M.arg_names(sp) if a_ != 'self'][0]
-    lps_ = [l_ for l_ in ast.walk(sp) if isinstance(l_, ast.For) and isinstance(l_.target, ast.Name) and compact(l_.iter) in (spar_, 'self.particle_arrays')]
-    ok = 'self.particle_arrays=%s' % spar_ in compact(sp) and any(
-        ("if'temp_prop'notin%s.properties:%s.add_property('temp_prop')" % (l_.target.id, l_.target.id)) in compact(l_).replace('\n', '') for l_ in lps_)
-    chk.decide(ok, 'rebinding', '_set_particle_arrays', node=sp, file=INT, func='_set_particle_arrays', detail_bad='new arrays are not stored / given temp_prop', detail_ok='stored; temp_prop ensured')
+    # decided by a model run: three arrays, the middle one already has the staging property - afterwards the interpolator holds the very list given and every array has temp_prop,
+    # added once where it was missing
+    from verif_static import emit as EM, absint as AI
+    ok, why = False, ''
+    try:
+        it_ = EM.interpreter()
+        added_ = []
+
+        def mk(nm, has):
+            props = {'x': 1, 'h': 1}
+            if has:
+                props['temp_prop'] = 1
+
+            def addp(i, a, k, n, e, props=props, nm=nm):
+                name_ = a[0] if a else k.get('name')
+                added_.append((nm, name_))
+                props[name_] = 1
+            return EM.mock(name=nm, properties=props, add_property=addp)
+        arrs = [mk('a', False), mk('b', True), mk('c', False)]
+        obj = EM.instance(it_, INT, 'Interpolator', particle_arrays=[mk('old', True)])
+        EM.call(it_, obj, '_set_particle_arrays', arrs)
+        ok = obj.attrs.get('particle_arrays') is arrs and sorted(added_) == [('a', 'temp_prop'), ('c', 'temp_prop')]
+        why = 'arrays stored: %s; add_property calls: %s' % (obj.attrs.get('particle_arrays') is arrs, added_)
+    except (AI.Unsupported, AI.Raised) as e:
+        why = 'not interpretable on the model: %s' % e
+    chk.decide(ok, 'rebinding', '_set_particle_arrays', node=sp, file=INT, func='_set_particle_arrays',
+               detail_bad='new arrays are not stored / given temp_prop where it is missing (model run: %s)' % why, detail_ok='stored; temp_prop ensured')
     # SPHEvaluator
     st = M.py(SEV)
     ecls_raw = M.find_class(st, 'SPHEvaluator')
@@ -768,12 +822,14 @@ def main(chk):
                        'volume-weighted form; every default equation takes all arrays as sources; method table agreement across the three dispatch sites; '
                        'rebinding of arrays re-creates the neighbour structure and the evaluator binding (dominance / must-pass), the property is staged '
                        'in every array before evaluation.')
-    tree = M.py(INT)
+    # equation hooks in a normal form: single-assignment scalar locals (`i4 = 4*d_idx`, `nd = d_number_density[d_idx]`) written out where they are used
+    tree = M.single_locals_inlined(M.py(INT), only_in=('initialize', 'loop', 'post_loop', 'loop_all', 'initialize_pair'))
     rule_normalised(chk, tree)
     rule_sources(chk, tree)
     rule_method_table(chk, tree)
     chk.floor("model runs of _create_particle_array", rule_target_model(chk, tree), 30)
     rule_rebinding(chk, tree)
+    rule_grid_dimensions(chk, tree)
     # the evaluator the interpolator runs on (anchored file acceleration_eval.py): each equation's initialise / post-loop code once per destination however many sources it has
     # (a normalising post_loop applied once per source divides twice), and the destination loop bounds are the array's current size (rules shared with C03)
     import importlib.util
